@@ -22,7 +22,7 @@ for p in props:
         'engine': 'vmon',
         'level_claimed': {
             'category': m.LEVEL,
-            'text': getattr(m, 'LEVEL_TEXT', m.__doc__.strip().split('\n\n')[0].replace('\n', ' ')),
+            'text': getattr(m, 'LEVEL_TEXT', ' '.join(m.__doc__.split())[:1400]),
             'design_ref': 'DESIGN.md section 3, %s' % pid,
         },
         'level_note': getattr(m, 'LEVEL_NOTE', '; '.join(getattr(m, 'ASSUMPTIONS', []))),
